@@ -10,7 +10,7 @@ from .report import Sub, load_known, Ctx
 RELATED = {
     "C01": [("C27", ["C27.R1", "C27.R2", "C27.R3", "C27.R5"]), ("C28", ["C28.R4"])],   # constant expressions and literal typing are part of the front-end's meaning
     "C02": [("C03", None), ("C38", None)],                                     # a pass that corrupts the IR or folds wrongly changes behaviour
-    "C03": [("C02", ["C02.R2", "C02.R7"])],                                    # replace_use discipline / tail-call rewrite keep def-use and block structure intact
+    "C03": [("C02", ["C02.R2", "C02.R7", "C02.R8"])],                                    # replace_use discipline / tail-call rewrite keep def-use and block structure intact
     "C04": [("C06", None), ("C40", None)],                                     # x86-64 native code = selection + allocation + SysV ABI
     "C05": [("C06", None)],                                                    # every target goes through the same allocator
     "C08": [("C10", ["C10.R4", "C10.R6", "C10.R7"])],                                    # a masked or overwritten operand is an encoding that disagrees with what is printed
@@ -21,6 +21,7 @@ RELATED = {
     "C15": [("C02", ["C02.R2"])],                                              # forward references are patched with replace_by: every slot must be replaced
     "C16": [("C02", ["C02.R2"])],
     "C21": [("C20", None)],
+    "C27": [("C01", ["C01.R5"])],                                              # case labels are constant expressions converted to the (promoted) type of the switch
     "C22": [("C24", ["C24.R2", "C24.R3", "C24.R4", "C24.R5"])],                # the Python execution target runs wasm through ir2py's runtime helpers                                                    # the binary format is LEB128 all over
 }
 
